@@ -203,8 +203,12 @@ def sym_obs(it, s):
     return res
 
 
+def _nz(j):
+    return json.loads(json.dumps(j).replace('"m": "-0"', '"m": "0"'))
+
+
 def compare(nat, sym):
-    """-> list of difference descriptions (empty = conform)"""
+    """-> list of difference descriptions (empty = conform); negative zero is identified with zero"""
     diffs = []
 
     def kind_of(o):
